@@ -29,7 +29,7 @@ RULE = ("the harness owns the process / hash-seed dimension: a pool of long-live
 ASSUMPTIONS = ["a two-element set flips iteration order between two random hash seeds with p ~ 1/2: the check leans on many exposed cases rather than many seeds",
                "Manhattan-scale scenarios are excluded for size; the OSM loader workaround is used for street graphs",
                "per-run random tags (uuid4 instance / session ids), order of lines within one step and order inside set-valued fields are not compared"]
-FLOORS = {"quick": {"scenarios": 20, "worker_steps": 5000, "flag:competing_instructions_for_one_entity": 3}, "thorough": {"scenarios": 500}}
+FLOORS = {"quick": {"scenarios": 20, "worker_steps": 5000, "flag:competing_instructions_for_one_entity": 3}, "thorough": {"scenarios": 200}}
 
 SHIPPED = ["denver_demo.yaml", "denver_demo_fleets.yaml", "denver_demo_constrained_charging.yaml", "denver_no_stations.yaml", "denver_rl_toy.yaml"]
 PROFILE = profile(nv=(3, 8), n_requests=(10, 60), builtin=[True], n_scripted=[1], fleets=[0, 2, 2, 3], socs=[0.08, 0.12, 0.13, 0.3, 0.9, 0.97],
